@@ -54,10 +54,10 @@ AllLangs == {"itv", "zone", "oct"}
 RECURSIVE BoxOf(_, _)
 BoxOf(n, rad) == IF n = 0 THEN {<<>>} ELSE {Append(s, v) : s \in BoxOf(n - 1, rad), v \in (-rad)..rad}
 \* constant-level definitions: TLC evaluates them once
-BoxR1 == BoxOf(1, R)  BoxR2 == BoxOf(2, R)  BoxR3 == BoxOf(3, R)
-BoxB1 == BoxOf(1, B)  BoxB2 == BoxOf(2, B)  BoxB3 == BoxOf(3, B)
-BoxRn(n) == CASE n = 1 -> BoxR1 [] n = 2 -> BoxR2 [] n = 3 -> BoxR3 [] OTHER -> BoxOf(n, R)
-BoxBn(n) == CASE n = 1 -> BoxB1 [] n = 2 -> BoxB2 [] n = 3 -> BoxB3 [] OTHER -> BoxOf(n, B)
+BoxR1 == BoxOf(1, R)  BoxR2 == BoxOf(2, R)  BoxR3 == BoxOf(3, R)  BoxR4 == BoxOf(4, R)
+BoxB1 == BoxOf(1, B)  BoxB2 == BoxOf(2, B)  BoxB3 == BoxOf(3, B)  BoxB4 == BoxOf(4, B)
+BoxRn(n) == CASE n = 1 -> BoxR1 [] n = 2 -> BoxR2 [] n = 3 -> BoxR3 [] n = 4 -> BoxR4 [] OTHER -> BoxOf(n, R)
+BoxBn(n) == CASE n = 1 -> BoxB1 [] n = 2 -> BoxB2 [] n = 3 -> BoxB3 [] n = 4 -> BoxB4 [] OTHER -> BoxOf(n, B)
 BoxR == BoxRn(NV)
 BoxB == BoxBn(NV)
 
